@@ -102,7 +102,7 @@ func (C09) Generate(r *core.Rand, tier string, idx int) *core.Scenario {
 	}
 	// part 1: corruption
 	sc.Cfg["nids"] = r.Range(1, 4)
-	if r.P(1, 10) {
+	if r.P(1, 2) { // (repaired)
 		sc.Cfg["k_trunc27"] = 1
 	}
 	if r.P(1, 12) {
@@ -114,10 +114,10 @@ func (C09) Generate(r *core.Rand, tier string, idx int) *core.Scenario {
 	if r.P(1, 10) {
 		sc.Cfg["k_blocks"] = 1
 	}
-	if sc.Cfg["fallback"] != 0 && r.P(1, 3) {
+	if sc.Cfg["fallback"] != 0 && r.P(1, 2) { // (repaired)
 		sc.Cfg["k_fbshort"] = 1
 	}
-	if r.P(1, 14) {
+	if r.P(1, 2) { // (repaired)
 		sc.Cfg["k_ueof"] = 1
 	}
 	n := r.Range(6, 16)
